@@ -4,6 +4,7 @@ from worlds import connpool
 
 class ConnPoolSpec(Spec):
     world = 'connpool'
+    shrink_groups = (('nclients', 'c_db', ('heal_after',)),)
     wall_cap = {'quick': 900, 'thorough': 7200}
     components = {
         'real': ['edb/server/connpool/pool.py (Pool, BasePool, Block: all of it)',
